@@ -147,3 +147,143 @@ func TestVerifC20Long(t *testing.T) {
 	}
 	env.Finish(res)
 }
+
+// c20RegrowCase: streams that grow, lose a prefix to memory pressure and grow again - the life of every
+// stream in a store that is full.  nStreams streams get n1 one-byte-per-digit payloads each (appended in
+// turns), the limit is lowered so that about k items per stream have to go, raised again, and 48 more
+// items are appended to each; after the eviction and after every later append each stream must retain a
+// suffix of what was appended to it, After from just before that suffix must yield exactly it, After from
+// one further back must report the purge, and After(last) nothing.
+func c20RegrowCase(n1, k, nStreams int) (obs, sig, msg string) {
+	fail := func(s, format string, a ...any) (string, string, string) {
+		return "", "c20 regrow " + s, fmt.Sprintf(format, a...) + fmt.Sprintf(" [%d stream(s), %d items each, about %d evicted, then growing]", nStreams, n1, k)
+	}
+	ctx := context.Background()
+	st := NewMemoryEventStore(nil)
+	st.SetMaxBytes(1 << 20)
+	const psize = 8
+	payload := func(t, i int) string { return fmt.Sprintf("%d-%06d", t, i) } // 8 bytes
+	tid := func(t int) string { return fmt.Sprintf("T%d", t) }
+	app := make([][]string, nStreams)
+	appendOne := func(t int) error {
+		p := payload(t, len(app[t]))
+		app[t] = append(app[t], p)
+		return st.Append(ctx, "S", tid(t), []byte(p))
+	}
+	replay := func(t, idx int) ([]string, error) {
+		var got []string
+		for d, err := range st.After(ctx, "S", tid(t), idx) {
+			if err != nil {
+				return got, err
+			}
+			got = append(got, string(d))
+			if len(got) > len(app[t])+8 {
+				return got, fmt.Errorf("replay does not end")
+			}
+		}
+		return got, nil
+	}
+	check := func(when string) (string, string, string) {
+		for t := 0; t < nStreams; t++ {
+			first, items, _, ok := c20View(st, "S", tid(t), len(app[t]))
+			if !ok {
+				return fail("stream-missing", "%s: stream %s is gone", when, tid(t))
+			}
+			if first < 0 || first+len(items) != len(app[t]) {
+				return fail("retained-not-suffix", "%s: stream %s retains [%d,%d), %d were appended", when, tid(t), first, first+len(items), len(app[t]))
+			}
+			for i, d := range items {
+				if string(d) != app[t][first+i] {
+					return fail("retained-not-suffix", "%s: stream %s item %d is %q, appended was %q", when, tid(t), first+i, d, app[t][first+i])
+				}
+			}
+			for _, idx := range []int{first - 1, first, (first + len(app[t])) / 2, len(app[t]) - 2, len(app[t]) - 1} {
+				if idx < first-1 || idx > len(app[t])-1 {
+					continue
+				}
+				got, err := replay(t, idx)
+				if err != nil {
+					return fail("replay-fails", "%s: After(%s, %d) = %d items and error %v; retained from %d on", when, tid(t), idx, len(got), err, first)
+				}
+				want := app[t][idx+1:]
+				if len(got) != len(want) {
+					return fail("wrong-sequence", "%s: After(%s, %d) yielded %d items, %d were appended after that index", when, tid(t), idx, len(got), len(want))
+				}
+				for i := range want {
+					if got[i] != want[i] {
+						return fail("wrong-sequence", "%s: After(%s, %d) item #%d is %q, appended there: %q", when, tid(t), idx, i, got[i], want[i])
+					}
+				}
+			}
+			if first > 0 {
+				if got, err := replay(t, first-2); !errors.Is(err, ErrEventsPurged) || len(got) > 0 {
+					return fail("purge-not-reported", "%s: After(%s, %d) = %d items, error %v, although item %d has been evicted", when, tid(t), first-2, len(got), err, first-1)
+				}
+			}
+		}
+		return "", "", ""
+	}
+	for i := 0; i < n1; i++ {
+		for t := 0; t < nStreams; t++ {
+			if err := appendOne(t); err != nil {
+				return fail("setup", "%v", err)
+			}
+		}
+	}
+	if o, s, m := check("before the eviction"); s != "" {
+		return o, s, m
+	}
+	st.SetMaxBytes(max(1, (n1-k)*nStreams*psize))
+	st.SetMaxBytes(1 << 20)
+	if o, s, m := check("after the eviction"); s != "" {
+		return o, s, m
+	}
+	evicted := 0
+	for t := 0; t < nStreams; t++ {
+		f, _, _, _ := c20View(st, "S", tid(t), len(app[t]))
+		evicted += f
+	}
+	for j := 0; j < 48; j++ {
+		for t := 0; t < nStreams; t++ {
+			if err := appendOne(t); err != nil {
+				return fail("append", "%v", err)
+			}
+			if o, s, m := check(fmt.Sprintf("after append #%d past the eviction", j+1)); s != "" {
+				return o, s, m
+			}
+		}
+	}
+	return fmt.Sprintf("evicted=%v", evicted > 0), "", ""
+}
+
+func TestVerifC20Regrow(t *testing.T) {
+	env := verifx.LoadEnv("C20")
+	res := env.NewResult()
+	cases := env.NewCases(res, "grow-evict-grow")
+	for _, nStreams := range []int{1, 2, 3} {
+		for n1 := 1; n1 <= env.Pick(40, 140); n1++ {
+			for k := 0; k <= n1; k++ {
+				idx, mine := cases.Next()
+				if !mine {
+					continue
+				}
+				desc := fmt.Sprintf("streams=%d n1=%d k=%d", nStreams, n1, k)
+				var obs, sig, msg string
+				func() {
+					defer func() {
+						if r := recover(); r != nil && sig == "" {
+							sig, msg = "c20 regrow panic", fmt.Sprintf("%v [%s]", r, desc)
+						}
+					}()
+					obs, sig, msg = c20RegrowCase(n1, k, nStreams)
+				}()
+				if sig != "" {
+					cases.Violate(idx, sig, msg, 2)
+					continue
+				}
+				cases.Record(idx, obs, 2, func() string { return desc })
+			}
+		}
+	}
+	env.Finish(res)
+}
